@@ -69,7 +69,7 @@ def run(ctx, res):
     import scenarios
     fam = [] if ctx.replay else (scenarios.pick(scenarios.family_joins(), 300 if ctx.tier == "quick" else 10 ** 6, ctx.seed + 1)
                                  + scenarios.pick(scenarios.family_a(), 150 if ctx.tier == "quick" else 10 ** 6, ctx.seed)
-                                 + scenarios.family_names())
+                                 + scenarios.family_names() + scenarios.family_suffix())
     pipeprop.run(ctx, res, "C09", PROFILE, n_quick=300, n_thorough=6000, probe_ids=(), extra_cases=fam)
     res.coverage["scenario_grid"] = {"family": "joins + A + N (references to hidden / overwritten / suffixed columns, same-named columns across a subquery)", "cases": len(fam)}
     if ctx.replay:
